@@ -35,6 +35,9 @@ impl CoroutinePool<'_> {
         }
         if current == old_state {
             assert_eq!(old_state, self.state.replace(new_state));
+            if PoolState::Stopped == new_state {
+                _ = crate::co_pool::LIVE_POOLS.fetch_sub(1, std::sync::atomic::Ordering::AcqRel);
+            }
             return Ok(old_state);
         }
         Err(Error::other(format!(
